@@ -20,10 +20,16 @@ RULE = ("signature trees built with the real API: (1) exhaustive chains of neste
         "(4) input-only leaves: tuples of 2-4 interfaces with one Out/In-paired data leaf next to a leaf that is In in every "
         "argument (flat / through In(sig), sig.flip() routes / arrayed), differing in width, signedness, init in one argument "
         "or not at all, both argument orders, with and without any output. "
+        "(5) aggregate-shaped ports: StructLayout / ArrayLayout / Struct classes with dict, list, partial and absent inits "
+        "(leaves are data.View objects), signed enums; keyword arguments to connect; flipped() applied 2 and 3 times; "
+        "Member.flip(); annotated Signature subclasses in metadata; the str order behind the integer name ranks. "
+        "After a successful connect the values read in simulation are predicted by the model from its assignment list. "
         "non-trivial = at least one port leaf and, for connect, at least 2 arguments; distinct by case hash")
+MARK = -777777
 MODELLED = ("wiring.py Member/Signature/FlippedSignature(+Members), flatten, create, is_compliant, FlippedInterface "
             "attribute access, flipped(), connect(), ComponentMetadata.as_json are modelled in coq/Model/Wiring.v; "
-            "shape casting of port descriptions (C10), Signal naming, Module statement storage, the simulator (used as "
+            "range / plain-Enum port shapes are cast by Model/Shape.v and layout inits packed by RunC14.pack inside Coq; "
+            "shape casting of the other descriptions (C10), Signal naming, Module statement storage, the simulator (used as "
             "an oracle for data flow) and jschon validation against the published schema are validated only")
 ASSUMPTIONS = ["member names are compared as integers ranked in Python str order",
                "dict keys are distinct (NoDup names) in theorem hypotheses"]
@@ -43,8 +49,47 @@ def bits_for(n, signed):
     return (-n - 1).bit_length() + 1 if n < -1 else 1
 
 
+AGG = ("struct", "array", "structcls")
+NAMES0 = ["a", "B", "a_b", "a0", "aB", "ab", "b", "Ba", "z9", "c_1"]    # POOL before sorting
+
+
+def agg_fields(sd, init):
+    """scalar fields (width, signed, value) of a data layout in layout order (least significant first);
+    omitted fields: 0 for StructLayout/ArrayLayout, the declared default for a Struct class."""
+    k = sd[0]
+    out = []
+    if k == "array":
+        vals = init if init is not None else [0] * sd[3]
+        return [(sd[1], sd[2], v) for v in vals]
+    d = init or {}
+    for f in sd[1]:
+        if f[1] == "arr":
+            vals = d.get(f[0], [0] * f[4])
+            out += [(f[2], f[3], v) for v in vals]
+        else:
+            dflt = (f[3] if k == "structcls" and f[3] is not None else 0)
+            out.append((f[1], f[2], d.get(f[0], dflt)))
+    return out
+
+
+def pack_py(fields):
+    v, off = 0, 0
+    for w, sg, x in fields:
+        v |= (x & ((1 << w) - 1)) << off
+        off += w
+    return v
+
+
+def leaf_init(sd, init):
+    if sd[0] in AGG:
+        return pack_py(agg_fields(sd, init))
+    return init or 0
+
+
 def cast_shape(sd):
     k = sd[0]
+    if k in AGG:
+        return (sum(f[0] for f in agg_fields(sd, None)), False)
     if k in ("u", "int"):
         return (sd[1], False)
     if k == "s":
@@ -61,6 +106,8 @@ def cast_shape(sd):
 
 
 def fits(sd, init):
+    if sd[0] in AGG:
+        return True
     w, sg = cast_shape(sd)
     v = init or 0
     return (-(1 << (w - 1)) <= v < (1 << (w - 1))) if sg else (0 <= v < (1 << w))
@@ -100,7 +147,7 @@ def spec_leaves(sig):
             for idx in idx_paths(m[4] if m[0] == "i" else m[4]):
                 p = pre + (n,) + idx
                 if m[0] == "p":
-                    out.append((p, (m[1] + par) % 2, cast_shape(m[2]), m[3] or 0))
+                    out.append((p, (m[1] + par) % 2, cast_shape(m[2]), leaf_init(m[2], m[3])))
                 else:
                     rec(m[3], (par + m[1] + int(m[2])) % 2, p)
     rec(sig["ms"], int(sig["w"]), ())
@@ -133,14 +180,55 @@ def rnd_shape(rng):
     if r < 0.8:
         a = rng.choice((0, 0, -3, 2))
         return ["range", a, a + rng.randrange(1, 9)]
-    if r < 0.9:
+    if r < 0.86:
         vals = sorted(rng.sample(range(0, 8), rng.randrange(1, 4)))
         return ["enum", vals, 3, False]
-    return ["pyenum", sorted(rng.sample(range(0, 6), rng.randrange(1, 4)))]
+    if r < 0.9:
+        return ["enum", sorted(rng.sample(range(-4, 4), rng.randrange(1, 4))), 3, True]     # signed enum
+    if r < 0.95:
+        return ["pyenum", sorted(rng.sample(range(0, 6), rng.randrange(1, 4)))]
+    return rnd_agg(rng)
+
+
+def rnd_agg(rng):
+    def sc():
+        sg = rng.random() < 0.4
+        return rng.randrange(1 if sg else 0, 5), sg
+    r = rng.random()
+    if r < 0.3:
+        w, sg = sc()
+        return ["array", w, sg, rng.randrange(0, 4)]
+    fields = []
+    for fn in rng.sample(["x", "y", "zz", "k9"], rng.randrange(1, 4)):
+        w, sg = sc()
+        if r < 0.65:
+            if rng.random() < 0.3:
+                fields.append([fn, "arr", w, sg, rng.randrange(1, 3)])
+            else:
+                fields.append([fn, w, sg])
+        else:
+            lo, hi = (-(1 << (w - 1)), 1 << (w - 1)) if sg else (0, 1 << w)
+            fields.append([fn, w, sg, rng.randrange(lo, hi) if rng.random() < 0.5 and hi > lo else None])
+    return ["struct" if r < 0.65 else "structcls", fields]
+
+
+def rnd_val(rng, w, sg):
+    lo, hi = (-(1 << (w - 1)), 1 << (w - 1)) if sg else (0, 1 << w)
+    return rng.randrange(lo, hi) if hi > lo else 0
 
 
 def rnd_init(rng, sd, oor=0.05):
     k = sd[0]
+    if k == "array":
+        return None if rng.random() < 0.3 else [rnd_val(rng, sd[1], sd[2]) for _ in range(sd[3])]
+    if k in ("struct", "structcls"):
+        if rng.random() < 0.25:
+            return None
+        d = {}
+        for f in sd[1]:
+            if rng.random() < 0.75:     # partial dict inits leave fields at 0 / their default
+                d[f[0]] = [rnd_val(rng, f[2], f[3]) for _ in range(f[4])] if f[1] == "arr" else rnd_val(rng, f[1], f[2])
+        return d
     w, sg = cast_shape(sd)
     if k == "range":
         return rng.randrange(sd[1], sd[2])
@@ -220,6 +308,7 @@ def tuples_for(rng, sig, many):
         out += [[arg(0, True, True), arg(0, True, False)], [arg(0, True, False), arg(0, False, False)],
                 [arg(0, False, False)], [arg(0, False, False), arg(0, False, False)],
                 [arg(0, False, False), arg(0, True, False), arg(0, False, True)],
+                [arg(0, False, 2), arg(0, True, 2)], [arg(0, True, 3), arg(0, False, 0)],
                 [arg(0, True, False), arg(0, False, False), arg(0, True, True), arg(0, False, True)]]
     else:
         n = rng.randrange(2, 5)
@@ -265,6 +354,8 @@ def mutate_sig(rng, sig):
                 m[1] ^= 1
             elif k == "width":
                 w, sg = cast_shape(m[2])
+                if m[2][0] in AGG:
+                    m[3] = leaf_init(m[2], m[3])
                 m[2] = ["s" if sg else "u", w + 1]
             elif k == "init":
                 w, sg = cast_shape(m[2])
@@ -311,17 +402,23 @@ def obj_corruptions(rng, sig, nl=1):
 def gen_cases(tier, seed):
     rng = random.Random(seed)
     thorough = tier == "thorough"
-    cases = []
+    cases = [{"k": "names", "sigs": []}]
 
     def add_all(sig, many, corrupt):
         cases.append({"k": "members", "sigs": [sig]})
         for fs, fo in VARIANTS:
             cases.append({"k": "obj", "sigs": [sig], "args": [arg(0, fs, fo)]})
         cases.append({"k": "meta", "sigs": [sig]})
+        if many:
+            cases.append({"k": "meta", "sigs": [sig], "annot": True})
         cases.append({"k": "spec_create", "sigs": [sig], "fs": False})
         cases.append({"k": "spec_create", "sigs": [sig], "fs": True})
         for t in tuples_for(rng, sig, many):
             cases.append({"k": "connect", "sigs": [sig], "args": t})
+            if len(t) >= 2 and rng.random() < (0.5 if many else 0.2):      # the same tuple through keyword arguments
+                cases.append({"k": "connect", "sigs": [sig], "args": t, "kw": rng.randrange(1, len(t) + 1)})
+        if many:
+            cases.append({"k": "obj", "sigs": [sig], "args": [arg(0, rng.random() < 0.5, 2)]})
         cases.append({"k": "spec_connect", "sigs": [sig], "bs": [False, True]})
         cases.append({"k": "spec_connect", "sigs": [sig], "bs": [True, False]})
         # the flipped side built as a fresh Signature of the flipped members (no FlippedSignature/FlippedInterface proxy)
@@ -368,6 +465,9 @@ def gen_cases(tier, seed):
     for m1, m2 in rng.sample(pairs, 500 if thorough else 16):
         n1, n2 = rng.sample(POOL, 2)
         add_all({"w": rng.random() < 0.5, "ms": [[n1, copy.deepcopy(m1)], [n2, copy.deepcopy(m2)]]}, False, 0.5)
+    # (1b) aggregate-shaped ports: data layouts (dict / list / partial / absent inits, Struct defaults), signed enums
+    for sgn in aggregate_sigs(rng, 40 if thorough else 6):
+        add_all(sgn, True, 1 if thorough else 0.5)
     # (2) seeded random trees
     N = 1200 if thorough else 30
     for i in range(N):
@@ -377,6 +477,33 @@ def gen_cases(tier, seed):
     # (3) a leaf that is an input in EVERY argument (no output on it): widths / inits must still agree
     cases += in_only_cases(random.Random(seed * 7919 + 14), thorough)
     return cases
+
+
+def aggregate_sigs(rng, nrand):
+    SL = ["struct", [["x", 3, False], ["y", 2, True], ["zz", "arr", 2, False, 2]]]
+    SC = ["structcls", [["x", 2, False, 3], ["y", 3, True, None]]]
+    AR = ["array", 2, True, 3]
+    SE = ["enum", [-2, 1], 3, True]
+    P = lambda f, sd, init, dims=(): ["p", f, sd, init, list(dims)]
+    out = [
+        {"w": False, "ms": [["a", P(0, SL, {"x": 5, "y": -1, "zz": [1, 2]})], ["b", P(1, SC, None)]]},
+        {"w": True, "ms": [["a", P(1, SL, {"x": 1})], ["ab", P(0, SC, {"y": -2})], ["z9", P(0, SE, -2)]]},
+        {"w": False, "ms": [["B", P(0, AR, [-1, 1, 0], (2,))], ["a0", P(1, AR, None)], ["c_1", P(1, SE, 1, (2,))]]},
+        {"w": False, "ms": [["ab", ["i", 1, False, [["a", P(0, SL, None)], ["b", P(1, SE, 1)]], []]],
+                            ["Ba", ["i", 0, True, [["a", P(0, SC, {"x": 0, "y": 3}, (2, 3))]], []]]]},
+        {"w": True, "ms": [["aB", ["i", 1, True, [["a_b", ["i", 0, False, [["a", P(1, AR, [1, -2, 0])]], []]]], []]],
+                           ["b", P(0, ["array", 0, False, 2], None)], ["a", P(1, ["struct", [["k9", 0, False]]], {"k9": 0})]]},
+    ]
+    for _ in range(nrand):
+        ms = []
+        for n in rng.sample(POOL, rng.randrange(1, 4)):
+            sd = rnd_agg(rng) if rng.random() < 0.8 else ["enum", sorted(rng.sample(range(-4, 4), rng.randrange(1, 4))), 3, True]
+            mem = ["p", rng.randrange(2), sd, rnd_init(rng, sd), rnd_dims(rng)]
+            if rng.random() < 0.3:
+                mem = ["i", rng.randrange(2), rng.random() < 0.3, [[rng.choice(POOL), mem]], []]
+            ms.append([n, mem])
+        out.append({"w": rng.random() < 0.3, "ms": ms})
+    return [x for x in out if 1 <= n_leaves(x) <= 30]
 
 
 def _in_route(route, sd, init, dims):
@@ -404,7 +531,10 @@ def in_only_cases(rng, thorough):
     the input-only leaf differs in width / signedness / init in exactly one argument, or not at all."""
     base_sd, base_init = ["u", 3], 2
     variants = [("equal", ["u", 3], 2), ("width", ["u", 4], 2), ("sign", ["s", 3], 2), ("init", ["u", 3], 3),
-                ("width_sign", ["s", 4], 2), ("none_vs_0", ["u", 3], None)]
+                ("width_sign", ["s", 4], 2), ("none_vs_0", ["u", 3], None),
+                ("agg_equal", ["struct", [["x", 1, False], ["y", 2, False]]], {"y": 1}),       # unsigned(3), packed 2
+                ("agg_init", ["struct", [["x", 1, False], ["y", 2, False]]], {"x": 1, "y": 1}),
+                ("agg_width", ["array", 2, False, 2], [2, 0])]
     out = []
     dimss = ([], [2], [2, 3]) if thorough else ([], [2])
     ks = (2, 3, 4) if thorough else (2, 3)
@@ -432,19 +562,31 @@ def in_only_cases(rng, thorough):
                             for rev in (False, True):
                                 o = list(reversed(order)) if rev else order
                                 out.append({"k": "connect", "sigs": sigs, "args": [arg(h, False, False) for h in o],
+                                            "kw": rng.choice((0, 0, 1, k)),
                                             "c": "inonly_" + vname + ("" if with_data else "_nodata")})
     return out
 
 
 # ------------------------------------------------------------------ classification
+def has_agg(c):
+    found = []
+    for sg in c["sigs"]:
+        walk_members(sg["ms"], lambda p, m: found.append(1) if m[0] == "p" and (
+            m[2][0] in AGG or (m[2][0] == "enum" and m[2][3])) else None)
+    return bool(found)
+
+
 def classify(c):
     k = c["k"]
+    tag = ("+agg" if has_agg(c) else "") + ("+kw" if c.get("kw") else "")
     if k in ("connect", "compl"):
-        return k + ":" + c.get("c", "ok-tuple%d" % len(c["args"]))
-    return k
+        return k + ":" + c.get("c", "ok-tuple%d" % len(c["args"])) + tag
+    return k + tag
 
 
 def nontrivial(c, obs):
+    if c["k"] == "names":
+        return True
     if n_leaves(c["sigs"][0]) == 0:
         return False
     if c["k"] == "connect" and len(c["args"]) < 2:
@@ -453,6 +595,14 @@ def nontrivial(c, obs):
 
 
 def known_finding(c, obs, model):
+    """a spec-level mismatch is a listed finding only if (a) the faithful model reproduces the implementation's
+    observation exactly (second halves equal) and (b) the observation and the input are of that finding's class."""
+    if not c["sigs"] or c["k"] not in ("spec_create", "spec_connect") or MARK not in obs or MARK not in model:
+        return None
+    io, im = obs.index(MARK), model.index(MARK)
+    if obs[io + 1:] != model[im + 1:]:
+        return None                      # the faithful model does not explain the observation: an ordinary violation
+    obs = obs[:io]
     sig = c["sigs"][0]
     if c["k"] == "spec_create":
         if obs[:1] == [0] and has_oor_init(sig):
@@ -470,7 +620,7 @@ def known_finding(c, obs, model):
 
 
 def explain(c):
-    return ("names are ranks in %r; error kinds %r; connect answer = [1, n, (handle, path, handle, path)*, simulation flag] "
+    return ("names are ranks in %r; error kinds %r; connect answer = [1, n, (handle, path, handle, path)*, n_reads, values read in simulation*] "
             "or [0, kind]; paths = [len, (0,name)|(1,index)...]" % (POOL, ERR))
 
 
@@ -492,6 +642,18 @@ def _shape(sd):
     if k == "range":
         return range(sd[1], sd[2])
     key = repr(sd)
+    if k in AGG and key not in _enum_cache:
+        from amaranth.lib import data
+        sh = lambda w, sg: Shape(w, sg)
+        if k == "array":
+            _enum_cache[key] = data.ArrayLayout(sh(sd[1], sd[2]), sd[3])
+        elif k == "struct":
+            _enum_cache[key] = data.StructLayout({f[0]: (data.ArrayLayout(sh(f[2], f[3]), f[4]) if f[1] == "arr"
+                                                         else sh(f[1], f[2])) for f in sd[1]})
+        else:
+            ns = {"__annotations__": {f[0]: sh(f[1], f[2]) for f in sd[1]}}
+            ns.update({f[0]: f[3] for f in sd[1] if f[3] is not None})
+            _enum_cache[key] = type("St", (data.Struct,), ns)
     if key not in _enum_cache:
         if k == "enum":
             import types
@@ -570,8 +732,11 @@ def build_arg(k, a, sigs):
                 parent[last] = v
             else:
                 setattr(parent, last, v)
-    if a["fo"]:
-        o = wiring.flipped(o)
+    for i in range(int(a["fo"])):
+        o2 = wiring.flipped(o)
+        if type(o) is not wiring.FlippedInterface and wiring.flipped(o2) is not o:   # flipped(flipped(x)) is x
+            raise AssertionError("flipped(flipped(o)) is not o")
+        o = o2
     return o
 
 
@@ -682,24 +847,61 @@ def sim_check(m, objs, per):
     return int(all(res) and len(res) == len(expect))
 
 
-def run_connect(objs):
-    from amaranth.hdl import Module
+def run_connect(objs, kw=0):
+    """connect(m, *objs[:n-kw], k0=..., k1=...): the last `kw` arguments are passed by keyword."""
+    from amaranth.hdl import Module, Signal
     from amaranth.lib import wiring
     m = Module()
+    npos = len(objs) - kw
     try:
-        wiring.connect(m, *objs)
+        wiring.connect(m, *objs[:npos], **{f"k{i}": o for i, o in enumerate(objs[npos:])})
     except Exception as e:
         return None, None, None, [0, exc_code(e)]
     ident, per = leaf_maps(objs)
     st = []
     for s in m._statements.get("comb", []):
-        st.append((ident[id(s.lhs)], ident[id(s.rhs)]))
+        pair = (ident[id(s.lhs)], ident[id(s.rhs)])
+        # cross-check the identity map (built with the implementation's flatten) against the signal names
+        for v, (k, p, _) in zip((s.lhs, s.rhs), pair):
+            if isinstance(v, Signal) and e_name(v.name) != [1 + len(p), 0, k] + e_path(p)[1:]:
+                return None, None, None, [-7, k]
+        st.append(pair)
     return m, st, per, None
+
+
+def sim_values(m, objs, per):
+    """drive the n-th output leaf that is a Signal (arguments in order, leaves in flatten order) with (37 n + 11) mod 1021,
+    read every input leaf that is a Signal in the same order; the model predicts these values from its assignment list."""
+    from amaranth.hdl import Value, Signal, Const
+    from amaranth.sim import Simulator
+    drives, reads, n = [], [], 0
+    for lv in per:
+        for p, mem, v in lv:
+            vv = Value.cast(v)
+            if isinstance(vv, Signal):
+                if mem.flow.name == "Out":
+                    n += 1
+                    drives.append((vv, Const((37 * n + 11) % 1021, vv.shape()).value))
+                else:
+                    reads.append(vv)
+    res = []
+    if reads:
+        async def tb(ctx):
+            for s_, v in drives:
+                ctx.set(s_, v)
+            for s_ in reads:
+                res.append(ctx.get(s_))
+        sim = Simulator(m)
+        sim.add_testbench(tb)
+        sim.run()
+    return [len(reads)] + res
 
 
 def run_impl(c):
     from amaranth.lib import wiring
     k = c["k"]
+    if k == "names":      # Python's order on member names (str) that the integer ranks stand for
+        return [sorted(NAMES0).index(n) for n in NAMES0]
     sigs = [build_sig(s) for s in c["sigs"]]
     if k == "members":
         x = sigs[0]
@@ -709,7 +911,9 @@ def run_impl(c):
         for p, m in a + b:
             out += [len(p)] + [RANK[n] for n in p] + e_member(m)
         cc = list(x.flip().flip().members.flatten())
-        out += [int(cc == a and x.flip().flip() == x), int(x == x), int(x == x.flip())]
+        mf = all(x.members[n].flip() == x.flip().members[n] and x.members[n].flip().flip() == x.members[n]
+                 and x.members[n].flip().flow == x.members[n].flow.flip() for n in x.members)     # Member.flip
+        out += [int(cc == a and x.flip().flip() == x and mf), int(x == x), int(x == x.flip())]
         return out
     if k in ("obj", "compl"):
         o = build_arg(0, c["args"][0], sigs)
@@ -730,15 +934,40 @@ def run_impl(c):
         return out
     if k == "connect":
         objs = [build_arg(i, a, sigs) for i, a in enumerate(c["args"])]
-        m, st, per, err = run_connect(objs)
+        m, st, per, err = run_connect(objs, c.get("kw", 0))
         if err:
             return err
         out = [1, len(st)]
         for (ki, pi, _), (ko, po, _) in st:
             out += [ki] + e_path(pi) + [ko] + e_path(po)
-        return out + [sim_check(m, objs, per)]
+        return out + sim_values(m, objs, per)
     if k == "meta":
         x = sigs[0]
+        annot = None
+        if c.get("annot"):      # a Signature subclass with an annotation: must appear under "annotations" and validate
+            from amaranth.lib import meta
+            AID = "https://example.org/schema/verif/0.1/leaves.json"
+
+            class Ann(meta.Annotation):
+                schema = {"$schema": "https://json-schema.org/draft/2020-12/schema", "$id": AID, "type": "object",
+                          "properties": {"n": {"type": "integer"}}, "required": ["n"], "additionalProperties": False}
+
+                def __init__(self, origin):
+                    self._origin = origin
+
+                @property
+                def origin(self):
+                    return self._origin
+
+                def as_json(self):
+                    return {"n": n_leaves(c["sigs"][0])}
+
+            class ASig(wiring.Signature):
+                def annotations(self, obj):
+                    return (Ann(obj),)
+            x = ASig(build_members(c["sigs"][0]["ms"]))
+            x = x.flip() if c["sigs"][0]["w"] else x
+            annot = {AID: {"n": n_leaves(c["sigs"][0])}}
 
         class Comp(wiring.Component):
             def __init__(self):
@@ -752,6 +981,8 @@ def run_impl(c):
             wiring.ComponentMetadata.validate(j)
         except Exception as e:
             return [-1, exc_code(e)]
+        if j["interface"]["annotations"] != (annot or {}):
+            return [-8]
 
         def enc(v):
             if isinstance(v, list):
@@ -774,9 +1005,36 @@ def run_impl(c):
             for p, mem, v in lv:
                 sh = Shape.cast(mem.shape)
                 out += e_path(p) + [int(mem.flow.name == "In"), sh.width, int(sh.signed)]
-            return out
         except Exception as e:
-            return [-1, exc_code(e)]
+            out = [-1, exc_code(e)]
+        # second half: the same input in the encoding of the faithful model (makes the finding filter exact)
+        return out + [MARK] + run_impl({"k": "obj", "sigs": c["sigs"], "args": [arg(0, c["fs"], 0)]})
+    if k == "spec_connect":
+        return _spec_connect(c, sigs) + [MARK] + _faithful_connect(c, sigs)
+    raise ValueError(k)
+
+
+def _faithful_connect(c, sigs):
+    from amaranth.lib import wiring
+    fx = sigs[0].flip()
+    if c.get("mirror"):
+        fx = wiring.Signature(dict(fx.members.items()))
+    objs = [(fx if b else sigs[0]).create(path=(f"o{i}",)) for i, b in enumerate(c["bs"])]
+    try:
+        m, st, per, err = run_connect(objs)
+    except Exception as e:
+        return [0, exc_code(e)]
+    if err:
+        return err
+    out = [1, len(st)]
+    for (ki, pi, _), (ko, po, _) in st:
+        out += [ki] + e_path(pi) + [ko] + e_path(po)
+    return out + sim_values(m, objs, per)
+
+
+def _spec_connect(c, sigs):
+    from amaranth.lib import wiring
+    k = c["k"]
     if k == "spec_connect":
         fx = sigs[0].flip()
         if c.get("mirror"):
@@ -799,16 +1057,25 @@ def run_impl(c):
 
 
 # ------------------------------------------------------------------ model side
-def t_shape_init(m):
-    w, sg = cast_shape(m[2])
-    return f"{z(w)} {blit(sg)} {z(m[3] or 0)}"
+def t_port(n, m):
+    """range / plain-Enum shapes are cast by the Gallina model (Model/Shape.v); layouts are packed by RunC14.pack."""
+    sd, k = m[2], m[2][0]
+    if k == "range":
+        return f"MPR {RANK[n]} {m[1]} {z(sd[1])} {z(sd[2])} {z(m[3] or 0)} {zlist(m[4])}"
+    if k == "pyenum":
+        return f"MPE {RANK[n]} {m[1]} {zlist(sd[1])} {z(m[3] or 0)} {zlist(m[4])}"
+    if k in AGG:
+        fs = "[" + "; ".join(f"F {z(w)} {z(v)}" for w, sg, v in agg_fields(sd, m[3])) + "]"
+        return f"MPA {RANK[n]} {m[1]} {fs} {zlist(m[4])}"
+    w, sg = cast_shape(sd)
+    return f"MP {RANK[n]} {m[1]} {z(w)} {blit(sg)} {z(m[3] or 0)} {zlist(m[4])}"
 
 
 def t_ms(ms):
     rows = []
     for n, m in ms:
         if m[0] == "p":
-            rows.append(f"MP {RANK[n]} {m[1]} {t_shape_init(m)} {zlist(m[4])}")
+            rows.append(t_port(n, m))
         else:
             rows.append(f"MI {RANK[n]} {m[1]} {blit(m[2])} {t_ms(m[3])} {zlist(m[4])}")
     return "[" + "; ".join(rows) + "]"
@@ -837,12 +1104,14 @@ def t_edit(k, p, e):
 
 def t_arg(k, a):
     eds = "[" + "; ".join(f"Ed {t_path(p)} ({t_edit(k, p, e)})" for p, e in a["edits"]) + "]"
-    return f"mk x{a['sig']} {k} {blit(a['fs'])} {blit(a['fo'])} {eds}"
+    return f"mk x{a['sig']} {k} {blit(a['fs'])} {int(a['fo'])} {eds}"
 
 
 def coq_term(c):
     k = c["k"]
     lets = "".join(f"let x{i} := {t_sig(s)} in " for i, s in enumerate(c["sigs"]))
+    if k == "names":
+        return "(k_names [" + "; ".join(zlist([ord(ch) for ch in n]) for n in NAMES0) + "])"
     if k == "members":
         body = "k_members x0"
     elif k == "obj":
@@ -854,9 +1123,13 @@ def coq_term(c):
     elif k == "meta":
         body = "k_meta x0"
     elif k == "spec_create":
-        body = "k_spec_create (sig_flip x0)" if c["fs"] else "k_spec_create x0"
+        body = ("k_spec_create (sig_flip x0)" if c["fs"] else "k_spec_create x0") + \
+               f" ++ [{z(MARK)}] ++ k_obj (mk x0 0 {blit(c['fs'])} 0 [])"
     elif k == "spec_connect":
-        body = "k_spec_connect x0 [" + "; ".join(blit(b) for b in c["bs"]) + "]"
+        fx = "mirror_sig x0" if c.get("mirror") else "sig_flip x0"
+        objs = "; ".join(f"create ({fx if b else 'x0'}) [N {i}]" for i, b in enumerate(c["bs"]))
+        body = "k_spec_connect x0 [" + "; ".join(blit(b) for b in c["bs"]) + "]" + \
+               f" ++ [{z(MARK)}] ++ k_connect [{objs}]"
     else:
         raise ValueError(k)
     return f"({lets}{body})"
